@@ -115,6 +115,8 @@ def zone_block(zone, used):
            f'\t scoring zone : \t Volume \t num of volume : {zone["id"]}\n',
            '\t Volume in cm3: 1.000000e+00\n\n\n']
     steps = zone['steps']
+    if zone.get('steps_decreasing'):
+        steps = list(reversed(steps))
     for num, step in enumerate(steps):
         if zone['step_kind'] == 't':
             out.append(f'\t TIME STEP NUMBER : {num}\n'
@@ -164,6 +166,8 @@ def gen_truth(rng):
                        'edges': edges, 'decreasing': rng.random() < 0.6,
                        'step_kind': step_kind, 'bounds': bounds,
                        'zones': zones,
+                       'steps_decreasing': (step_kind is not None
+                                            and rng.random() < 0.4),
                        'integrated': rng.choice(['yes', 'yes', 'no',
                                                  'not_converged'])})
     for batch in batches:
@@ -177,6 +181,10 @@ def gen_truth(rng):
                     integ = None
                     if lay['integrated'] == 'yes':
                         integ = (uniq.score(False), uniq.sigma())
+                        if rng.random() < 0.15:
+                            # a zero result (or one identical in all
+                            # batches) is printed with a zero sigma
+                            integ = (rng.choice([0.0, integ[0]]), 0.0)
                     elif lay['integrated'] == 'not_converged':
                         integ = 'not_converged'
                     steps.append({'lo': lay['bounds'][snum],
@@ -191,6 +199,7 @@ def gen_truth(rng):
                                       zip(step['scores'], step['sigmas'])]
                 zones.append({'id': zid, 'edges': lay['edges'],
                               'decreasing': lay['decreasing'],
+                              'steps_decreasing': lay['steps_decreasing'],
                               'step_kind': lay['step_kind'], 'steps': steps})
             resps.append(dict(lay, zone_data=zones))
         editions.append({'batch': batch, 'responses': resps})
